@@ -4,7 +4,7 @@
    `tree`, `th` (tree hash: leaf = H(0x00‖d), node = H(0x01‖l‖r)), `leaves`, `mk_tree` (RFC 6962
    shape) are in Merkle/Tree.v and Merkle/Ref.v; the verifiers transliterated from
    embedded/ahtree/verification.go and embedded/htree/htree.go are in Merkle/Verify.v. *)
-From V Require Import Merkle.Verify Merkle.Sound.
+From V Require Import Merkle.Verify Merkle.Sound Merkle.Levels Merkle.Honest Merkle.Exact Merkle.RefEq Merkle.Main.
 
 (* The reference tree over a non-empty list of payloads has exactly those payloads as leaves, in
    order (so `mth L` commits to L and to nothing else). *)
@@ -12,19 +12,47 @@ Theorem C08_reference_tree_leaves : forall L : list bytes, L <> [] -> leaves (mk
 Proof. exact mk_tree_leaves. Qed.
 Print Assumptions C08_reference_tree_leaves.
 
-(* ahtree.VerifyInclusion, for every tree t, every proof (any number of 32-byte terms), every
-   claimed i, j and payload d: acceptance against the hash of t implies that d IS a leaf of t, or a
-   collision is exhibited.
-   FULL statement (position-exact: "... implies nth (i-1) (leaves t) = d and the proof has the
-   reference length") is not proved yet; this is the _partial form (membership). *)
-Theorem C08_ahtree_inclusion_sound_partial :
+(* The level-by-level construction (pair adjacent nodes, promote an odd last node: what
+   htree.BuildWith computes and the AHtree maintains) builds EXACTLY the reference RFC 6962 tree,
+   for every non-empty payload list. *)
+Theorem C08_level_construction_is_reference :
+  forall L : list bytes, L <> [] -> root (map Leaf L) = mk_tree L.
+Proof. exact level_root_is_reference. Qed.
+Print Assumptions C08_level_construction_is_reference.
+
+(* ahtree.VerifyInclusion is POSITION-EXACT: for every payload list L (any size), every proof an
+   adversary can assemble (any number of 32-byte terms), every claimed i and payload d: acceptance
+   against the genuine (size, root) pair implies that d is exactly the i-th payload (and
+   1 <= i <= size), or a hash collision is exhibited. *)
+Theorem C08_ahtree_inclusion_sound_exact :
+  forall (H : bytes -> bytes), (forall x, length (H x) = 32%nat) ->
+  forall (L : list bytes) (terms : list bytes) (i j : N) (d : bytes),
+    L <> [] -> j = N.of_nat (length L) -> len32 terms ->
+    verify_inclusion H terms i j (leafh H d) (mth H L) = true ->
+    (nth_error L (N.to_nat (i - 1)) = Some d /\ (1 <= i <= j)%N) \/ Collision H.
+Proof. exact ahtree_inclusion_sound_exact. Qed.
+Print Assumptions C08_ahtree_inclusion_sound_exact.
+
+(* Completeness: for every L and every valid position i the honest proof (the sibling path through
+   the level construction; the harness checks on every run that AHtree.InclusionProof returns
+   exactly these terms) is accepted. *)
+Theorem C08_ahtree_inclusion_complete :
+  forall (H : bytes -> bytes), (forall x, length (H x) = 32%nat) ->
+  forall (L : list bytes) (i j : N) (d : bytes),
+    L <> [] -> j = N.of_nat (length L) -> (1 <= i)%N -> nth_error L (N.to_nat (i - 1)) = Some d ->
+    verify_inclusion H (honest_inclusion_proof H L i) i j (leafh H d) (mth H L) = true.
+Proof. exact ahtree_inclusion_complete. Qed.
+Print Assumptions C08_ahtree_inclusion_complete.
+
+(* Also for ANY tree t (not only the reference shape): an accepted payload is a leaf of t. *)
+Theorem C08_ahtree_inclusion_sound_anytree :
   forall (H : bytes -> bytes), (forall x, length (H x) = 32%nat) ->
   forall (t : tree) (terms : list bytes) (i j : N) (d : bytes),
     len32 terms ->
     verify_inclusion H terms i j (leafh H d) (th H t) = true ->
     In d (leaves t) \/ Collision H.
 Proof. exact inclusion_sound_membership. Qed.
-Print Assumptions C08_ahtree_inclusion_sound_partial.
+Print Assumptions C08_ahtree_inclusion_sound_anytree.
 
 (* ahtree.VerifyLastInclusion is exact: an accepted payload is THE LAST leaf of the tree. *)
 Theorem C08_ahtree_last_inclusion_sound :
